@@ -62,8 +62,9 @@ def sh(cmd, cwd=None, env=None, timeout=None, stdin=None, bigstack=False):
 # --------------------------------------------------------------------------- Lean side
 class LakeLock:
     def __enter__(self):
-        os.makedirs(BUILD, exist_ok=True)
-        self.f = open(os.path.join(BUILD, "lake.lock"), "w")
+        # one lock per Lean project (runs against scratch trees share /verif/lean and its Generated/)
+        os.makedirs(os.path.join(LEAN, ".lake"), exist_ok=True)
+        self.f = open(os.path.join(LEAN, ".lake", "verif.lock"), "w")
         fcntl.flock(self.f, fcntl.LOCK_EX)
 
     def __exit__(self, *a):
@@ -133,6 +134,23 @@ def prop_theorems(prop):
     return names
 
 
+MODEL_BIN = [None]
+
+
+def snapshot_model():
+    """Private copy of the model driver (taken under the lock): a concurrent run against a scratch
+    tree rebuilds .lake/build/bin/csd_model."""
+    import atexit
+    os.makedirs(BUILD, exist_ok=True)
+    dst = os.path.join(BUILD, "csd_model_%d" % os.getpid())
+    try:
+        shutil.copy2(os.path.join(LEAN, ".lake", "build", "bin", "csd_model"), dst)
+        MODEL_BIN[0] = dst
+        atexit.register(lambda: os.path.exists(dst) and os.remove(dst))
+    except OSError:
+        MODEL_BIN[0] = None
+
+
 def lean_stage(prop):
     """Returns dict(ok, obligations, discharged, axioms, errors, wall)."""
     t0 = time.time()
@@ -155,6 +173,8 @@ def lean_stage(prop):
                     res["broken"].append(m.group(1) + ":" + m.group(2))
             if not res["broken"]:
                 res["broken"].append("lake build " + mod)
+        if rc == 0:
+            snapshot_model()
         names = prop_theorems(prop)
         res["obligations"] = len(names)
         if rc == 0 and names:
@@ -252,7 +272,7 @@ def run_cases(cases, cfg, rundir, extra_defs=(), tag="", timeout=20, env_extra=N
     env["TSAN_OPTIONS"] = "halt_on_error=0:report_signal_unsafe=0:exitcode=0"
     if env_extra:
         env.update(env_extra)
-    model = os.path.join(LEAN, ".lake", "build", "bin", "csd_model")
+    model = MODEL_BIN[0] or os.path.join(LEAN, ".lake", "build", "bin", "csd_model")
 
     def one(p):
         logdir = p + ".logs"
@@ -602,6 +622,7 @@ def replay(prop, path):
         return 0 if res["ok"] else 1
     with LakeLock():
         sh(["lake", "build", "csd_model"], cwd=LEAN)
+        snapshot_model()
     c = case_from_json(j["case"])
     rundir = os.path.join(BUILD, "run", "replay_%d" % os.getpid())
     p2 = getattr(streams, j["phase2"]) if j.get("phase2") else None
